@@ -2,6 +2,7 @@
 #include "engine.hpp"
 #include <algorithm>
 #include <cstdio>
+#include <cstdlib>
 
 namespace vf {
 
@@ -83,6 +84,13 @@ void World::applyDelta(int i, const Message& m, bool check) {
 		ok = F.node->replay(m.delta);
 	}
 	observe(i);
+	if (std::getenv("VF_TRACE")) {
+		std::fprintf(stderr, "-- op %d %s on %s (seq %d)\n", opIndex, "replay", h.role.c_str(), m.seq);
+		for (auto& e : h.trace) std::fprintf(stderr, "   %s\n", evStr(e).c_str());
+		std::fprintf(stderr, "   active:"); for (size_t k = 0; k < F.obs.active.size(); ++k) if (F.obs.active[k]) std::fprintf(stderr, " %zu", k);
+		std::fprintf(stderr, "  resumable:"); for (size_t k = 0; k < F.obs.resumable.size(); ++k) if (F.obs.resumable[k]) std::fprintf(stderr, " %zu", k);
+		std::fprintf(stderr, "\n");
+	}
 	Op pseudo = *m.op; pseudo.kind = OP_DELIVER;
 	afterOp(i, pseudo, before);
 	if (result.tainted || !check) return;
@@ -123,6 +131,13 @@ void World::applySnapshot(int i, const std::vector<uint8_t>& bytes, const Obs& s
 	F.node->load(bytes);
 	F.expectActivated = src.activated;
 	observe(i);
+	if (std::getenv("VF_TRACE")) {
+		std::fprintf(stderr, "-- op %d %s on %s (seq %d)\n", opIndex, why, h.role.c_str(), 0);
+		for (auto& e : h.trace) std::fprintf(stderr, "   %s\n", evStr(e).c_str());
+		std::fprintf(stderr, "   active:"); for (size_t k = 0; k < F.obs.active.size(); ++k) if (F.obs.active[k]) std::fprintf(stderr, " %zu", k);
+		std::fprintf(stderr, "  resumable:"); for (size_t k = 0; k < F.obs.resumable.size(); ++k) if (F.obs.resumable[k]) std::fprintf(stderr, " %zu", k);
+		std::fprintf(stderr, "\n");
+	}
 	Op pseudo = *op; pseudo.kind = OP_SNAPSHOT;
 	afterOp(i, pseudo, before);
 	if (result.tainted) return;
